@@ -1,6 +1,8 @@
 import Rare.Proofs.C10
 import Rare.Proofs.C10Tree
 import Rare.Proofs.C10State
+import Rare.Proofs.C10Src
+import Rare.Gen.C10
 /-!
 # C10 — optimisation and user-defined functions never change an expression's value
 
@@ -337,5 +339,162 @@ example : Levels ⟨fun _ => [1], fun _ => [2]⟩ [[Comp.match_ 1, Comp.match_ 0
 example : LayoutOk true [([], .bare "f".toList), ([' '], .braced "0".toList)] ∧ allSpace [] = true :=
   ⟨⟨rfl, Or.inl rfl, (by decide : bare "f".toList = true), by decide, Or.inr (by decide),
     Inner.char '0' _ (by decide) Inner.nil, trivial⟩, rfl⟩
+
+/-! ## The code the theorems above rest on, regenerated from /repo (round 4b) -/
+
+/-- **`Comp.probe` is `EvalStaticStage`.**  The model's probe equals running the stage against a counting context
+    whose `GetMatch` / `GetKey` are the bodies of `monitorContext`'s methods as they stand in /repo (count every
+    look-up, answer ""), starting from the zero monitor, with `ok` the comparison written in `EvalStaticStage`. -/
+theorem probe_is_eval_static_stage {α : Type} (c : Comp α) :
+    c.probe = evalStatic Gen.C10.monitorGetMatch Gen.C10.monitorGetKey Gen.C10.evalStaticInit Gen.C10.evalStaticOk c :=
+  (evalStatic_probe c).symm
+
+/-- **`timeStep` is the closure in /repo.**  The closure of `smartDateParseWrapper`'s cache mode, translated statement
+    by statement (`Gen.C10.cacheClosure : CProg`, semantics `execProg`), computes for every library, every
+    `emptyTime`, both worlds, every date string and every cache content exactly what the hand model `timeStep .cur`
+    says – answer and cells; the clause is the one for `""`/`cache`, both cells start empty and `emptyTime` is the
+    date expression's `EvalStaticStage` value (`emptyOf`).  A dropped guard (`strTime != emptyTime`), a dropped
+    `format = &staticFormat`, a changed order of statements in /repo changes the program and breaks this proof. -/
+theorem time_step_matches_source {L : Type} (lib : TimeLib L) (emptyTime : Bytes) (static : Bool) (s : Bytes)
+    (st : TimeSt L) :
+    cacheStepOf Gen.C10.cacheClosure lib emptyTime static s st = some (timeStep .cur lib emptyTime static s st) ∧
+      Gen.C10.cacheLabels = ["", "cache"] ∧
+      Gen.C10.cacheInit = ["stmt:varatomicFormat,staticFormatatomic.Value", "do:atomicFormat.Store(\"\")",
+        "do:staticFormat.Store(\"\")", "stmt:emptyTime,_:=EvalStaticStage(dateStage)"] :=
+  ⟨cacheStepOf_expected lib emptyTime static s st, by decide, by decide⟩
+
+/-- **`subContext` in the model is `subContext` in /repo.**  `GetMatch` of the pooled object (`SubObj.ctx`) and the
+    re-interpretation of look-ups by `Comp.withSub` resolve an index as the method's if-chain in /repo does
+    (`idx < 0` to the parent, `idx < len(vals)` an element with `vals [2]string`, "" otherwise); `GetKey` goes to the parent. -/
+theorem sub_context_from_source (o : SubObj) (i : Int) (v0 v1 : Bytes) {α : Type} (k : Bytes → Comp α) :
+    o.ctx.getMatch i = o.resolve (Gen.C10.subContextGetMatch Gen.C10.subContextVals i) ∧
+    Gen.C10.subContextGetKey = .parent ∧
+    (Comp.getMatch i k).withSub v0 v1 =
+      (match Gen.C10.subContextGetMatch Gen.C10.subContextVals i with
+       | .parent j => .getMatch j fun b => (k b).withSub v0 v1
+       | r => (k (SubObj.resolve ⟨emptyCtx, v0, v1⟩ r)).withSub v0 v1) := by
+  refine ⟨?_, rfl, ?_⟩
+  · simp only [SubObj.ctx, Gen.C10.subContextGetMatch, Gen.C10.subContextVals]
+    by_cases h0 : i < 0
+    · simp [h0, SubObj.resolve]
+    · by_cases h1 : i = 0
+      · subst h1; simp [SubObj.resolve]
+      · by_cases h2 : i = 1
+        · subst h2; simp [SubObj.resolve]
+        · have : ¬ i < 2 := by omega
+          simp [h0, h1, h2, this, SubObj.resolve]
+  · simp only [Comp.withSub, Gen.C10.subContextGetMatch, Gen.C10.subContextVals]
+    by_cases h0 : i < 0
+    · simp [h0]
+    · by_cases h1 : i = 0
+      · subst h1; simp [SubObj.resolve]
+      · by_cases h2 : i = 1
+        · subst h2; simp [SubObj.resolve]
+        · have : ¬ i < 2 := by omega
+          simp [h0, h1, h2, this, SubObj.resolve]
+
+/-- **`lazySubContext` in the model is `lazySubContext` in /repo.**  `withArgs` (the tree transformer) and `argCtx`
+    (the context of `call_eq_body`) resolve `{i}` as `(*lazySubContext).GetMatch` in /repo does: negative to the caller,
+    `idx >= len(args)` empty, else the argument stage evaluated in the caller's context; `GetKey` goes to the caller. -/
+theorem lazy_context_from_source (args : List Stage) (i : Int) {α : Type} (k : Bytes → Comp α) (ctx : Ctx)
+    (vals : List Bytes) :
+    withArgs args (.getMatch i k) =
+      (match Gen.C10.lazySubContextGetMatch args.length i with
+       | .parent j => .getMatch j fun b => withArgs args (k b)
+       | .arg n => (args.getD n (.ret [])).bind fun v => withArgs args (k v)
+       | _ => withArgs args (k [])) ∧
+    (argCtx ctx args.length vals).getMatch i =
+      (match Gen.C10.lazySubContextGetMatch args.length i with
+       | .parent j => ctx.getMatch j
+       | .arg n => vals.getD n []
+       | _ => []) ∧
+    Gen.C10.lazySubContextGetKey = .parent := by
+  refine ⟨?_, ?_, rfl⟩
+  · simp only [withArgs, Gen.C10.lazySubContextGetMatch]
+    by_cases h0 : i < 0
+    · simp [h0]
+    · by_cases h1 : i ≥ (args.length : Int)
+      · simp [h0, h1]
+      · simp [h0, h1]
+  · simp only [argCtx, Gen.C10.lazySubContextGetMatch]
+    by_cases h0 : i < 0
+    · simp [h0]
+    · by_cases h1 : i ≥ (args.length : Int)
+      · simp [h0, h1]
+      · simp [h0, h1]
+
+/-- **The touch of `{time live}` / `{time delta}` reaches the root through every wrapper.**  The closures of `live`
+    and `delta` in /repo begin with `context.GetMatch(i)` for one index `i` (that of `now` does not touch), and both
+    wrapping contexts of /repo, whatever their size, pass that index on to their parent – so the monitor counts it
+    (`varying_not_frozen`) also inside binders and funcs-file functions (seeded change `C10-time-touch-zero`). -/
+theorem varying_touch_reaches_root :
+    ∃ i : Int, Gen.C10.liveTouch = some i ∧ Gen.C10.deltaTouch = some i ∧ Gen.C10.nowTouch = none ∧
+      ∀ n : Nat, Gen.C10.subContextGetMatch n i = .parent i ∧ Gen.C10.lazySubContextGetMatch n i = .parent i :=
+  ⟨-1, rfl, rfl, rfl, fun n => ⟨by simp [Gen.C10.subContextGetMatch], by simp [Gen.C10.lazySubContextGetMatch]⟩⟩
+
+/-- **`InStaticAnalysis` is the root's answer through any chain of sub-contexts.**  The list of ALL context types of
+    /repo: three wrap another context – `subContext` and `lazySubContext` forward the question,
+    `trackingExpressionContext` (`rare expression --stats`, wraps the command's own context on real data) does not
+    answer; of the six roots only `monitorContext` answers true.  Hence for every chain of `subContext` /
+    `lazySubContext` objects of any length over any root, `expressions.InStaticAnalysis` is true iff the root is the
+    monitor – the assumption of `time_cache_subcontext_probe_invisible` (`static` handed down unchanged). -/
+theorem static_analysis_forwarded :
+    (Gen.C10.contextTypes.filter (·.wraps)).map (fun c => (c.name, c.static))
+      = [("trackingExpressionContext", .absent), ("lazySubContext", .forward), ("subContext", .forward)] ∧
+    (Gen.C10.contextTypes.filter (fun c => !c.wraps)).map (fun c => (c.name, c.static))
+      = [("accumulatorGroupSortContext", .absent), ("exprAccumulatorContext", .absent), ("KeyBuilderContextArray", .absent),
+         ("monitorContext", .const true), ("SliceSpaceExpressionContext", .absent), ("formatExpressionContext", .absent)] ∧
+    ∀ (ws : List CtxImpl) (root : CtxImpl),
+      (∀ w ∈ ws, w ∈ Gen.C10.contextTypes ∧ (w.name = "subContext" ∨ w.name = "lazySubContext")) →
+      root ∈ Gen.C10.contextTypes → root.wraps = false →
+      inStaticChain Gen.C10.inStaticDefault (ws.map (·.static) ++ [root.static]) = decide (root.name = "monitorContext") := by
+  refine ⟨by decide, by decide, ?_⟩
+  intro ws root hws hroot hw
+  have hf : ∀ w ∈ Gen.C10.contextTypes, (w.name = "subContext" ∨ w.name = "lazySubContext") → w.static = .forward := by
+    decide
+  rw [inStaticChain_forwards]
+  · have : ∀ r ∈ Gen.C10.contextTypes, r.wraps = false →
+        inStaticChain Gen.C10.inStaticDefault [r.static] = decide (r.name = "monitorContext") := by decide
+    exact this root hroot hw
+  · intro a ha
+    obtain ⟨w, hw1, rfl⟩ := List.mem_map.mp ha
+    exact hf w (hws w hw1).1 (hws w hw1).2
+
+/-- **Every `Pool.Get()` of the expression packages is followed by a reset of everything an earlier user left.**
+    The six sites of /repo; at each, `defer pool.Return(obj)` follows and every field of the object type is overwritten
+    (`*obj = T{…}`) or the same in every object of the pool (`args`, given by `newer`); and the stale-independence
+    theorems instantiated with what the source says (`resetsAll` read off the site): removing a reset line in /repo
+    makes `resetsAll` false and this proof fail (cf. `pool_no_reset_counterexample`). -/
+theorem pool_sites_from_source :
+    Gen.C10.poolSites.map (fun s => (s.fn, s.pool, s.objType))
+      = [("keyBuilderToFunction", "ctxPool", "lazySubContext"), ("kfMath", "ctxPool", "keyBuilderContextWrapper"),
+         ("kfArrayMap", "subContextPool", "subContext"), ("kfArrayReduce", "subContextPool", "subContext"),
+         ("kfArrayFor", "subContextPool", "subContext"), ("kfArrayFilter", "subContextPool", "subContext")] ∧
+    (∀ s ∈ Gen.C10.poolSites, s.resetsAll = true) ∧
+    (∀ s ∈ Gen.C10.poolSites, s.objType = "subContext" → ∀ (pool : Pool) (ctx : Ctx) (inner : Stage) (a b : Bytes),
+      (evalSubPooled s.resetsAll pool ctx inner a b).1 = (inner.withSub a b).run ctx) ∧
+    (∀ s ∈ Gen.C10.poolSites, s.objType = "lazySubContext" → ∀ (stale : LazyObj) (args : List Stage) (body : Stage) (ctx : Ctx),
+      (evalArgsPooledR s.resetsAll stale args body ctx).1 = (withArgs args body).run ctx) := by
+  have hall : ∀ s ∈ Gen.C10.poolSites, s.resetsAll = true := by decide
+  refine ⟨by decide, hall, ?_, ?_⟩
+  · intro s hs _ pool ctx inner a b
+    rw [hall s hs]
+    exact (pool_stale_independent pool ctx inner a b).1
+  · intro s hs _ stale args body ctx
+    rw [hall s hs]
+    rfl
+
+/-- Control skeletons (every statement with its conditions, in source order) of the functions the model mirrors by
+    hand: `EvalStaticStage`, `InStaticAnalysis`, `(*subContext).Eval`, `optimize` (`optimizeGo`), `BuildKey` / `joinStages`
+    (`buildKey`), `keyBuilderToFunction` (`userFunction`, `evalArgsPooledR`). -/
+theorem control_skeletons_are_source :
+    Gen.C10.evalStaticStageCtl = ["stmt:varmonitormonitorContext", "stmt:ret=stage(&monitor)", "stmt:ok=(monitor.keyLookups==0)", "return:"] ∧
+    Gen.C10.inStaticAnalysisCtl = ["if:aware,ok:=context.(StaticAnalysisAware);ok{", "return:aware.InStaticAnalysis()", "}", "return:false"] ∧
+    Gen.C10.subContextEvalCtl = ["stmt:s.vals[0]=v0", "stmt:s.vals[1]=v1", "return:stage(s)"] ∧
+    Gen.C10.optimizeCtl = ["stmt:ret:=&CompiledKeyBuilder{stages:make([]KeyBuilderStage,0,len(s.stages)),}", "stmt:varsbstrings.Builder", "range:s.stages{", "if:constVal,ok:=EvalStaticStage(stage);ok{", "do:sb.WriteString(constVal)", "}else{", "if:sb.Len()>0{", "stmt:ret.stages=append(ret.stages,stageLiteral(sb.String()))", "do:sb.Reset()", "}", "stmt:ret.stages=append(ret.stages,stage)", "}", "}", "if:sb.Len()>0{", "stmt:ret.stages=append(ret.stages,stageLiteral(sb.String()))", "}", "return:ret"] ∧
+    Gen.C10.buildKeyCtl = ["if:len(s.stages)==0{", "return:\"\"", "}", "if:len(s.stages)==1{", "return:s.stages[0](context)", "}", "stmt:varsbstrings.Builder", "range:s.stages{", "do:sb.WriteString(stage(context))", "}", "return:sb.String()"] ∧
+    Gen.C10.joinStagesCtl = ["if:len(s.stages)==0{", "return:stageLiteral(\"\")", "}", "if:len(s.stages)==1{", "return:s.stages[0]", "}", "return:KeyBuilderStage(func(contextKeyBuilderContext)string{varsbstrings.Builderfor_,stage:=ranges.stages{sb.WriteString(stage(context))}returnsb.String()})"] ∧
+    Gen.C10.keyBuilderToFunctionCtl = ["return:func(args[]expressions.KeyBuilderStage)(expressions.KeyBuilderStage,error){ctxPool:=slicepool.NewObjectPoolEx(5,func()*lazySubContext{return&lazySubContext{args:args,}})returnfunc(kbcexpressions.KeyBuilderContext)string{subCtx:=ctxPool.Get()deferctxPool.Return(subCtx)subCtx.sub=kbcreturnstage.BuildKey(subCtx)},nil}"] := by
+  exact ⟨rfl, rfl, rfl, rfl, rfl, rfl, rfl⟩
 
 end Rare.C10
